@@ -96,3 +96,137 @@ Qed.
 
 Lemma escape_ends_nl s : ends_nl s -> ends_nl (escape_printable s).
 Proof. intros [p ->]. apply escape_from_nl. lia. Qed.
+
+(* ---------- escaping distributes over a cut in front of an ASCII byte ---------- *)
+
+Definition ascii_head (b : str) : Prop := match b with [] => True | c :: _ => c < 128 end.
+
+(* decoding at the head of x does not look past x when an ASCII byte (or nothing) follows:
+   an ASCII byte is not a continuation byte *)
+Lemma decode_rune_app_ascii x b : x <> [] -> ascii_head b -> decode_rune (x ++ b) = decode_rune x.
+Proof.
+  intros Hx Hb. destruct b as [|c b]; [rewrite app_nil_r; reflexivity|]. cbn [ascii_head] in Hb.
+  destruct x as [|x0 [|x1 [|x2 [|x3 x]]]]; [congruence|..]; destruct b as [|c1 [|c2 b]];
+    unfold decode_rune; cbn [app];
+    destruct (x0 =? 224) eqn:?, (x0 =? 237) eqn:?, (x0 =? 240) eqn:?, (x0 =? 244) eqn:?;
+    repeat match goal with |- context [if ?cnd then _ else _] => destruct cnd eqn:? end; try reflexivity;
+    exfalso; unfold is_cont, in_range in *; lia.
+Qed.
+
+Lemma has_prefix_app_ascii p x b :
+  Forall (fun c => 128 <= c) p -> x <> [] -> ascii_head b -> has_prefix p (x ++ b) = has_prefix p x.
+Proof.
+  intros Hp Hx Hb. unfold has_prefix. revert x Hx. induction Hp as [|c p Hc Hp IH]; intros x Hx; [reflexivity|].
+  destruct x as [|x0 x]; [congruence|]. cbn [app strip_prefix].
+  destruct (c =? x0); [|reflexivity].
+  destruct x as [|x1 x]; [|apply IH; discriminate].
+  cbn [app]. destruct p as [|c' p]; [reflexivity|]. cbn [strip_prefix].
+  destruct b as [|b0 b]; [reflexivity|]. cbn [ascii_head] in Hb.
+  inversion Hp; subst. destruct (N.eqb_spec c' b0); [lia|reflexivity].
+Qed.
+
+Lemma escape_piece_app_ascii x b b0 r :
+  x <> [] -> ascii_head b -> escape_piece (x ++ b) b0 r = escape_piece x b0 r.
+Proof.
+  intros Hx Hb. unfold escape_piece.
+  rewrite (has_prefix_app_ascii utf8_rune_error x b); [reflexivity| |assumption|assumption].
+  unfold utf8_rune_error. repeat constructor; lia.
+Qed.
+
+Lemma decode_width_app_ascii x b : x <> [] -> ascii_head b ->
+  (snd (decode_rune (x ++ b)) <= length x)%nat.
+Proof. intros Hx Hb. rewrite decode_rune_app_ascii by assumption. apply decode_rune_width_le. Qed.
+
+Lemma escape_from_app_ascii a b k : ascii_head b -> (k <= length a)%nat ->
+  escape_from (a ++ b) k = escape_from a k ++ escape_from b 0.
+Proof.
+  intro Hb. revert k. induction a as [|a0 a IH]; intros k Hk.
+  - destruct k; [reflexivity|simpl in Hk; lia].
+  - cbn [app escape_from]. destruct k as [|k]; [|apply IH; simpl in Hk; lia].
+    change (a0 :: a ++ b) with ((a0 :: a) ++ b).
+    rewrite (decode_rune_app_ascii (a0 :: a) b ltac:(discriminate) Hb).
+    pose proof (decode_rune_width_le (a0 :: a)) as Hw.
+    destruct (decode_rune (a0 :: a)) as [r w]. cbn [snd length] in Hw.
+    rewrite (escape_piece_app_ascii (a0 :: a) b a0 r ltac:(discriminate) Hb).
+    rewrite IH by lia. rewrite app_assoc. reflexivity.
+Qed.
+
+Theorem escape_app_ascii a b : ascii_head b ->
+  escape_printable (a ++ b) = escape_printable a ++ escape_printable b.
+Proof. intro Hb. apply escape_from_app_ascii; [assumption|lia]. Qed.
+
+(* printable ASCII (and tab, newline) is left alone *)
+Lemma escape_safe_id p : safe p -> escape_printable p = p.
+Proof.
+  unfold escape_printable. induction 1 as [|c p Hc Hp IH]; [reflexivity|].
+  cbn [escape_from]. rewrite (decode_rune_ascii c p (xprint_ascii _ Hc)).
+  unfold escape_piece. replace (c <? 256) with true by (pose proof (xprint_ascii _ Hc); lia).
+  rewrite Hc. cbn [andb app Nat.sub]. rewrite IH. reflexivity.
+Qed.
+
+(* a cut after an ASCII-only, XPrint-only prefix *)
+Lemma escape_safe_prefix p r : safe p -> escape_printable (p ++ r) = p ++ escape_printable r.
+Proof.
+  unfold escape_printable. induction 1 as [|c p Hc Hp IH]; [reflexivity|].
+  cbn [app escape_from]. rewrite (decode_rune_ascii c (p ++ r) (xprint_ascii _ Hc)).
+  unfold escape_piece. replace (c <? 256) with true by (pose proof (xprint_ascii _ Hc); lia).
+  rewrite Hc. cbn [andb app Nat.sub]. rewrite IH. reflexivity.
+Qed.
+
+(* escaping introduces no byte that was not there, other than  < > U + x 0-9 A-F *)
+Definition escape_alphabet (c : N) : bool :=
+  (c =? 60) || (c =? 62) || (c =? 85) || (c =? 43) || (c =? 120) || is_digit c || ((65 <=? c) && (c <=? 70)).
+
+Lemma hex_digit_alphabet d : d < 16 -> escape_alphabet (hex_digit d) = true.
+Proof. intro H. unfold escape_alphabet, hex_digit, is_digit. destruct (N.ltb_spec d 10); lia. Qed.
+
+Definition from_or_alphabet (s : str) (out : str) : Prop :=
+  Forall (fun c => In c s \/ escape_alphabet c = true) out.
+
+Lemma hex_aux_alphabet fuel n acc : Forall (fun c => escape_alphabet c = true) acc ->
+  Forall (fun c => escape_alphabet c = true) (hex_aux fuel n acc).
+Proof.
+  revert n acc. induction fuel as [|fuel IH]; intros n acc Ha; cbn [hex_aux]; [assumption|].
+  assert (escape_alphabet (hex_digit (n mod 16)) = true) by (apply hex_digit_alphabet, N.mod_lt; lia).
+  destruct (n / 16 =? 0); [|apply IH]; constructor; assumption.
+Qed.
+
+Lemma escape_piece_alphabet s b0 r w s' : s = b0 :: s' -> decode_rune s = (r, w) ->
+  Forall (fun c => c = b0 \/ escape_alphabet c = true) (escape_piece s b0 r).
+Proof.
+  intros -> Hd. unfold escape_piece.
+  destruct ((r <? 256) && xprint b0) eqn:E1.
+  - apply andb_true_iff in E1 as [_ Hx].
+    rewrite (decode_rune_ascii b0 s' (xprint_ascii _ Hx)) in Hd. inversion Hd; subst. repeat constructor.
+  - destruct ((r =? rune_error) && negb (has_prefix utf8_rune_error (b0 :: s'))).
+    + change ([60; 48; 120] ++ fmt_02X b0 ++ [62]) with (60 :: 48 :: 120 :: fmt_02X b0 ++ [62]).
+      do 3 (apply Forall_cons; [right; reflexivity|]). apply Forall_app. split.
+      * unfold fmt_02X. do 2 (apply Forall_cons; [right; apply hex_digit_alphabet, N.mod_lt; lia|]). constructor.
+      * apply Forall_cons; [right; reflexivity|constructor].
+    + change ([60] ++ fmt_U r ++ [62]) with (60 :: fmt_U r ++ [62]).
+      apply Forall_cons; [right; reflexivity|]. apply Forall_app. split.
+      * unfold fmt_U. change ([85; 43] ++ ?x) with (85 :: 43 :: x).
+        do 2 (apply Forall_cons; [right; reflexivity|]). apply Forall_app. split.
+        -- apply Forall_forall. intros c Hc. apply repeat_spec in Hc. subst. right. reflexivity.
+        -- eapply Forall_impl; [|apply hex_aux_alphabet; constructor]. intros c Hc. right. exact Hc.
+      * apply Forall_cons; [right; reflexivity|constructor].
+Qed.
+
+Lemma escape_from_alphabet s k : from_or_alphabet s (escape_from s k).
+Proof.
+  unfold from_or_alphabet. revert k. induction s as [|b0 s IH]; intro k; cbn [escape_from]; [constructor|].
+  destruct k as [|k].
+  - destruct (decode_rune (b0 :: s)) as [r w] eqn:Hd. apply Forall_app. split.
+    + eapply Forall_impl; [|eapply escape_piece_alphabet; [reflexivity|exact Hd]].
+      intros c [-> |Hc]; [left; left; reflexivity|right; exact Hc].
+    + eapply Forall_impl; [|apply IH]. intros c [Hc|Hc]; [left; right; exact Hc|right; exact Hc].
+  - eapply Forall_impl; [|apply IH]. intros c [Hc|Hc]; [left; right; exact Hc|right; exact Hc].
+Qed.
+
+(* a byte outside the escape alphabet that does not occur in s does not occur in the result:
+   in particular newline (10), ':' (58) and ' ' (32) *)
+Theorem escape_keeps_out c s : escape_alphabet c = false -> ~ In c s -> ~ In c (escape_printable s).
+Proof.
+  intros Hc Hs Hin. pose proof (escape_from_alphabet s 0) as H. unfold from_or_alphabet in H.
+  rewrite Forall_forall in H. destruct (H c Hin) as [H1|H1]; [contradiction|congruence].
+Qed.
